@@ -128,7 +128,8 @@ package spine
 //@ define onEntity(cf, re) = cf.Device().Ski() == re.Device().Ski() && deepEqual(cf.Address().Entity, re.Address().Entity)
 //@ define onEntityAddr(cf, re) = deepEqual(cf.Address().Device, re.Address().Device) && deepEqual(cf.Address().Entity, re.Address().Entity)
 
-//@ func (*BindingManager).RemoveBindingsForEntity
+//@ func (*BindingManager).RemoveBindingsForEntity safety-root
+//@   assumes c != nil && c.localDevice != nil
 //@   requires c != nil
 //@   assumes bindInv(c)
 //@   ensures[C05] inv-kept: old(bindInv(c)) ==> bindInv(c)
@@ -141,6 +142,7 @@ package spine
 //@   modifies c.bindingEntries, @PUBLISH, held
 //@   loop 0 invariant acc: newBindingEntries == nil || freshPre(newBindingEntries)
 //@   loop 0 invariant frame: unchangedPre(*api.BindingEntry) && unchangedPre(api.BindingEntry) && unchangedPre(model.FeatureAddressType) && unchangedPre(model.EntityAddressType) && unchangedPre(api.EventPayload)
+//@   loop 0 invariant nn: old(bindInv(c)) ==> forall j int :: 0 <= j && j < len(newBindingEntries) ==> newBindingEntries[j] != nil && newBindingEntries[j].ClientFeature != nil && newBindingEntries[j].ServerFeature != nil
 //@   loop 0 invariant len: len(newBindingEntries) == Fcnt($k)
 //@   loop 0 invariant elems: forall j int :: 0 <= j && j < $k && kept($s[j]) ==> newBindingEntries[Fcnt(j)] == $s[j]
 //@   loop 0 invariant events: evn == pre(evn) + ($k - Fcnt($k))
@@ -197,10 +199,12 @@ package spine
 //@   modifies c.subscriptionEntries, @PUBLISH, held
 //@   loop 0 invariant acc: newSubscriptionEntries == nil || freshPre(newSubscriptionEntries)
 //@   loop 0 invariant frame: unchangedPre(*api.SubscriptionEntry)
+//@   loop 0 invariant nn: old(subInv(c)) ==> forall j int :: 0 <= j && j < len(newSubscriptionEntries) ==> newSubscriptionEntries[j] != nil && newSubscriptionEntries[j].ClientFeature != nil && newSubscriptionEntries[j].ServerFeature != nil
 //@   loop 0 invariant len: len(newSubscriptionEntries) == Fcnt($k)
 //@   loop 0 invariant elems: forall j int :: 0 <= j && j < $k && kept($s[j]) ==> newSubscriptionEntries[Fcnt(j)] == $s[j]
 
-//@ func (*SubscriptionManager).RemoveSubscriptionsForEntity
+//@ func (*SubscriptionManager).RemoveSubscriptionsForEntity safety-root
+//@   assumes c != nil && c.localDevice != nil
 //@   requires c != nil
 //@   assumes subInv(c)
 //@   ensures[C05] inv-kept: old(subInv(c)) ==> subInv(c)
@@ -213,6 +217,7 @@ package spine
 //@   modifies c.subscriptionEntries, @PUBLISH, held
 //@   loop 0 invariant acc: newSubscriptionEntries == nil || freshPre(newSubscriptionEntries)
 //@   loop 0 invariant frame: unchangedPre(*api.SubscriptionEntry) && unchangedPre(api.SubscriptionEntry) && unchangedPre(model.FeatureAddressType) && unchangedPre(model.EntityAddressType) && unchangedPre(api.EventPayload)
+//@   loop 0 invariant nn: old(subInv(c)) ==> forall j int :: 0 <= j && j < len(newSubscriptionEntries) ==> newSubscriptionEntries[j] != nil && newSubscriptionEntries[j].ClientFeature != nil && newSubscriptionEntries[j].ServerFeature != nil
 //@   loop 0 invariant len: len(newSubscriptionEntries) == Fcnt($k)
 //@   loop 0 invariant elems: forall j int :: 0 <= j && j < $k && kept($s[j]) ==> newSubscriptionEntries[Fcnt(j)] == $s[j]
 //@   loop 0 invariant events: evn == pre(evn) + ($k - Fcnt($k))
@@ -506,7 +511,7 @@ package spine
 //@   modifies @RESP, @PUBLISH, world, held, spawn, sendfails, hmn
 
 //@ func (*DeviceLocal).ProcessCmd safety-root
-//@   assumes r != nil && remoteDevice != nil && r.bindingManager != nil
+//@   assumes r != nil && remoteDevice != nil && r.bindingManager != nil && forall i int :: 0 <= i && i < len(r.entities) ==> r.entities[i] != nil
 //@   requires r != nil && remoteDevice != nil && datagram.Header.AddressDestination != nil && datagram.Header.AddressSource != nil && datagram.Header.CmdClassifier != nil && len(datagram.Payload.Cmd) > 0
 //@   requires remoteDevice.FeatureByAddress(datagram.Header.AddressSource) != nil
 //@   requires wellformed: (*datagram.Header.CmdClassifier == model.CmdClassifierTypeResult) <==> (datagram.Payload.Cmd[0].ResultData != nil)
@@ -590,7 +595,7 @@ package spine
 //@   loop 0 invariant older: forall d int :: d < pre(spawnn) ==> spawnfn[d] == pre(spawnfn)[d]
 
 //@ func[C01] (*FeatureLocal).HandleMessage impl:api.FeatureLocalInterface.HandleMessage safety-root
-//@   assumes r != nil && r.Feature != nil && r.address != nil && r.responseMsgCallback != nil && r.entity != nil
+//@   assumes r != nil && r.Feature != nil && r.address != nil && r.responseMsgCallback != nil && r.entity != nil && r.pendingWriteApprovals != nil && r.writeApprovalReceived != nil && (forall k string :: has(r.pendingWriteApprovals, k) ==> r.pendingWriteApprovals[k] != nil)
 //@   requires r != nil && r.Feature != nil && r.address != nil && r.responseMsgCallback != nil
 //@   modifies map(gomap[string]map[model.MsgCounterType]*time.Timer), map(gomap[model.MsgCounterType]*time.Timer), map(gomap[model.MsgCounterType][]func(api.ResponseMessage)), timers
 
@@ -614,7 +619,7 @@ package spine
 //@   modifies @PUBLISH, world, held
 
 //@ func (*NodeManagement).processNotifyDetailedDiscoveryData trusted safety-root
-//@   assumes r != nil && r.entity != nil && message != nil && message.FeatureRemote != nil
+//@   assumes r != nil && r.entity != nil && message != nil && message.FeatureRemote != nil && data != nil
 //@   ensures[C01] no-response: noResp
 //@   modifies @PUBLISH, world, held
 
@@ -671,16 +676,22 @@ package spine
 //@   modifies @RESP, @PUBLISH, world, held, spawn, hmn, sendfails, map(gomap[model.MsgCounterType]string)
 
 //@ func (*DeviceRemote).AddEntityAndFeatures safety-root
-//@   assumes d != nil && d.Device != nil
+//@   assumes d != nil && d.Device != nil && data != nil && forall i int :: 0 <= i && i < len(d.entities) ==> d.entities[i] != nil
+//@   loop 0 invariant ents: forall i int :: 0 <= i && i < len(d.entities) ==> d.entities[i] != nil
 
-//@ func unmarshalFeature safety-root
-//@   assumes entity != nil
-
-//@ func (*DeviceRemote).CheckEntityInformation safety-root
+//@ func (*DeviceRemote).CheckEntityInformation impl:api.DeviceRemoteInterface.CheckEntityInformation safety-root
 //@   assumes d != nil && d.Device != nil
+//@   modifies nothing
+
+// the function-data factory is one big loop-free table; it is checked once as its own root and used through this contract
+// "elements" is trusted: every element is the result of a createFunctionData call, each of which is proved (here) to
+// return or panic-free-convert a freshly allocated *FunctionData; the 40-fold conditional append chain is beyond the solvers.
+//@ func functionDataForFeatureType trusted safety-root opaque inst:api.FunctionDataInterface
+//@   ensures elements: forall i int :: 0 <= i && i < len(result) ==> result[i] != nil
+//@   modifies nothing
 
 //@ func (*FeatureRemote).SetOperations safety-root
 //@   assumes r != nil && r.Feature != nil
+//@   modifies r.Feature.operations, map(gomap[model.FunctionType]api.OperationsInterface)
 
-//@ func NewEntity safety-root
 
